@@ -97,6 +97,12 @@ func loadProgram(dir string, patterns []string) (*Program, error) {
 			P.addFunc(fn, funcKey(fn))
 		}
 	}
+	// the synthetic package initialisers (initial values of package-level variables)
+	for _, sp := range P.SPkgs {
+		if fn := sp.Func("init"); fn != nil && fn.Blocks != nil {
+			P.addFunc(fn, funcKey(fn))
+		}
+	}
 	return P, nil
 }
 
